@@ -392,6 +392,8 @@ extern int total_queries;
     const UChar *string_val = (const UChar *) sqlite3_column_text16(stmt, col); \
     if (string_val == NULL) { \
         dest = NULL; \
+        /* a NULL result means either an SQL NULL or that SQLite could not allocate memory for the text */ \
+        if (sqlite3_errcode(sqlite3_db_handle(stmt)) == SQLITE_NOMEM) { SET_RESULT(CIF_MEMORY_ERROR); goto onerr; } \
     } else { \
         size_t value_bytes = (size_t) sqlite3_column_bytes16(stmt, col); \
         int32_t value_chars; \
@@ -415,6 +417,8 @@ extern int total_queries;
     const char *string_val = (const char *) sqlite3_column_text(stmt, col); \
     if (string_val == NULL) { \
         dest = NULL; \
+        /* a NULL result means either an SQL NULL or that SQLite could not allocate memory for the text */ \
+        if (sqlite3_errcode(sqlite3_db_handle(stmt)) == SQLITE_NOMEM) { SET_RESULT(CIF_MEMORY_ERROR); goto onerr; } \
     } else { \
         size_t value_bytes = (size_t) sqlite3_column_bytes(stmt, col); \
         dest = (char *) malloc(value_bytes + 1); \
